@@ -1,5 +1,6 @@
 import Aurora.Lemmas.PSlice
 import Aurora.Lemmas.PSliceLocks
+import Aurora.Lemmas.PSliceMem
 /-!
 # C21 — Proximity-indexed peer sets behave as sets
 
@@ -153,7 +154,41 @@ theorem C21_no_race (s : St) (hs : Reachable s) (a1 a2 : Access)
     a1.write = false ∧ a2.write = false :=
   pslice_no_race s hs a1 a2 h1 h2 t1 t2 hne held1 held2
 
+/-! ### Snapshot isolation (backing-array model `Aurora/Model/PSliceMem.lean`) -/
+
+open Aurora.PSliceMem in
+/-- Clause "iteration concurrent with updates", for the *elements* that `EachBin/EachBinRev` read
+    after releasing the lock: start from `New`, let any sequence `before` of memory writes happen,
+    take the slice header of any bin `i` (the snapshot `peers := s.peers[i]`), then let any
+    further sequence `after` of writes by `Add`/`Remove` happen (in-place append at index `len`,
+    or allocation of a fresh array): the snapshot still reads exactly the same elements — no
+    location the reader looks at is ever written again. -/
+theorem C21_snapshot_isolated (maxBins : Nat) (before after : List Prim) (i : Nat) (hi : i < maxBins) :
+    let m := Aurora.PSliceMem.run (init maxBins) before
+    read (Aurora.PSliceMem.run m after) (hdr m i) = read m (hdr m i) := by
+  intro m
+  have hw : WF m := wf_run before _ (wf_init maxBins)
+  have hl : m.bins.length = maxBins := by
+    show (Aurora.PSliceMem.run (init maxBins) before).bins.length = maxBins
+    rw [bins_length_run]; simp [init]
+  exact run_isolated after m (hdr m i) (stable_of_wf m hw i (by omega))
+
+open Aurora.PSliceMem in
+/-- the same for one write, as an invariant: any stable snapshot (in particular any header read
+    from a well-formed memory) is unaffected by a write and remains stable; well-formedness is
+    preserved. -/
+theorem C21_write_preserves_snapshots (m : Aurora.PSliceMem.Mem) (hw : WF m) (h : Hdr) (hs : Stable m h) (p : Prim) :
+    read (step m p) h = read m h ∧ Stable (step m p) h ∧ WF (step m p) :=
+  ⟨(step_isolated m h hs p).1, (step_isolated m h hs p).2, wf_step m hw p⟩
+
 /-! Non-vacuity. -/
+open Aurora.PSliceMem in
+example : read (Aurora.PSliceMem.run (init 2) [.realloc 0 [[1#8], []] 1 2, .write 0 [2#8]]) ⟨1, 1, 2⟩ = [[1#8]] := by
+  decide
+open Aurora.PSliceMem in
+example : read (Aurora.PSliceMem.run (init 2) [.realloc 0 [[1#8], []] 1 2, .write 0 [2#8]])
+    (hdr (Aurora.PSliceMem.run (init 2) [.realloc 0 [[1#8], []] 1 2, .write 0 [2#8]]) 0) = [[1#8], [2#8]] := by
+  decide
 example : Inv (new 32 [1#8, 2#8]) := inv_new _ _ (by decide) (by decide)
 example : Mem (run (new 2 [0#8]) [.add [[0x80#8], [0x01#8]], .remove [0x80#8]]) [0x01#8] :=
   ⟨1, by decide⟩
